@@ -1,31 +1,29 @@
-(* C07 (extension mech)  A rejected action is reported alone and changes nothing -- for the job-specific classes of Model/SpecMech.v: RobotSummonSkill, RobotSetupBuff, HommingMissile, FullMetalBarrageComponent, MultipleOptionComponent, MecaCarrier (mechanic.py); CosmicOrb, Elysion, CrossTheStyx, CosmicBurst, CosmicShower, Cosmos, FlareSlash (soulmaster.py); FinalCutComponent, BladeStormComponent, KarmaBladeTriggerComponent (dualblade.py); UltimateDarkSightComponent (thief.py); HowlingGaleComponent (windbreaker.py).  xreduce_spec c m p t s = the reducer m of class c with parameters p and payload t on the state s (own entities AND the bound entities the class reads through binds); the model is tied to the code by the H-entity correspondence of tools/lib/ext_mech.py.  C07_mech_reject_alone: every reducer of every modelled class (use, elapse, stop, pause, increase, maximize, crack, trigger, sudden_raid) except the two FlareSlash triggers: if the returned events contain a rejection they are exactly [reject] and the returned state IS the input state, bound entities included.  C07_mech_flareslash_refuted / _partial: FlareSlash.change_stance_trigger and styx_trigger reduce the cooldown BEFORE the availability test of use_simple_attack, so a rejected trigger has changed the cooldown: refuted with a witness; largest true sub-statement: the rejection is alone and the state is unchanged except that the cooldown went down by exactly the configured amount (known finding).  C07_mech_silent_triggers: Elysion.crack and KarmaBlade.trigger, when their guard fails, return no event and the input state.  C07_mech_not_ready_is_noop: a use while the cooldown is running returns the unchanged state and one rejection (12 cooldown-gated classes).  C07_mech_nonvacuous: a rejecting use exists. *)
+(* C07 (extension mech)  A rejected action is reported alone and changes nothing -- for the job-specific classes of Model/SpecMech.v: RobotSummonSkill, RobotSetupBuff, HommingMissile, FullMetalBarrageComponent, MultipleOptionComponent, MecaCarrier (mechanic.py); CosmicOrb, Elysion, CrossTheStyx, CosmicBurst, CosmicShower, Cosmos, FlareSlash (soulmaster.py); FinalCutComponent, BladeStormComponent, KarmaBladeTriggerComponent (dualblade.py); UltimateDarkSightComponent (thief.py); HowlingGaleComponent (windbreaker.py).  xreduce_spec c m p t s = the reducer m of class c with parameters p and payload t on the state s (own entities AND the bound entities the class reads through binds); the model is tied to the code by the H-entity correspondence of tools/lib/ext_mech.py.  C07_mech_reject_alone: every reducer of every modelled class (use, elapse, stop, pause, increase, maximize, crack, trigger, sudden_raid) (the two FlareSlash triggers included, after the repair 5aadaec of a defect this check found): if the returned events contain a rejection they are exactly [reject] and the returned state IS the input state, bound entities included.  C07_mech_flareslash_silent: FlareSlash.change_stance_trigger and styx_trigger (now @ignore_rejected) never report a rejection; while the slash is still cooling down after the reduction they return no event and the input state with the cooldown shortened by exactly the configured amount.  C07_mech_flareslash_repaired: the witnesses of the two former known findings (cooldown 10000, reductions 800 / 1200) now answer with no event.  C07_mech_silent_triggers: Elysion.crack and KarmaBlade.trigger, when their guard fails, return no event and the input state.  C07_mech_not_ready_is_noop: a use while the cooldown is running returns the unchanged state and one rejection (12 cooldown-gated classes).  C07_mech_nonvacuous: a rejecting use exists. *)
 From Coq Require Import ZArith List Bool Permutation. From V.Model Require Import Comp SpecMech. From V.Proofs Require Import CompReject CompViews CompChunk SpecMechReject SpecMechViews SpecMechDP SpecMechChunk SpecMechWf.
 
 Theorem C07_mech_reject_alone :
   forall (c : xcomp) (m : xmeth) (p : xpar) (t : Z) (s s' : xst) (es : list ev),
-        is_flare_trigger c m = false ->
         xreduce_spec c m p t s = Some (s', es) ->
         rejected es = true -> es = EReject :: nil /\ s' = s.
 Proof. exact @xreject_alone_spec. Qed.
 
-Theorem C07_mech_flareslash_partial :
+Theorem C07_mech_flareslash_silent :
   forall (c : xcomp) (m : xmeth) (p : xpar) (t : Z) (s s' : xst) (es : list ev),
-        is_flare_trigger c m = true ->
+        c = FlareSlash /\ (m = XChangeStance \/ m = XStyx) ->
         xreduce_spec c m p t s = Some (s', es) ->
-        rejected es = true ->
-        es = EReject :: nil /\
-        restore_cd s' s = s /\
-        u_cd (x_u s') = u_cd (x_u s) - match m with
-                                       | XChangeStance => xp_t1 p
-                                       | _ => xp_t2 p
-                                       end.
-Proof. exact @flare_trigger_reject_partial. Qed.
+        rejected es = false /\
+        (let r := match m with
+                  | XChangeStance => xp_t1 p
+                  | _ => xp_t2 p
+                  end in
+         0 < u_cd (x_u s) - r ->
+         es = nil /\ s' = set_u s (set_cd (x_u s) (u_cd (x_u s) - r))).
+Proof. exact @flare_trigger_silent. Qed.
 
-Theorem C07_mech_flareslash_refuted :
-  exists (p : xpar) (s s' : xst) (es : list ev),
-          xreduce_spec FlareSlash XChangeStance p 0 s = Some (s', es) /\
-          rejected es = true /\ s' <> s.
-Proof. exact @flare_trigger_reject_refuted. Qed.
+Theorem C07_mech_flareslash_repaired :
+  xreduce_spec FlareSlash XChangeStance flare_par 0 flare_state = Some (set_u x0 (set_cd u0 9200), nil) /\
+        xreduce_spec FlareSlash XStyx flare_par 0 flare_state = Some (set_u x0 (set_cd u0 8800), nil).
+Proof. exact @flare_trigger_repaired. Qed.
 
 Theorem C07_mech_silent_triggers :
   forall (p : xpar) (t : Z) (s : xst),
@@ -46,8 +44,8 @@ Theorem C07_mech_nonvacuous :
 Proof. exact @xreject_happens. Qed.
 
 Print Assumptions C07_mech_reject_alone.
-Print Assumptions C07_mech_flareslash_partial.
-Print Assumptions C07_mech_flareslash_refuted.
+Print Assumptions C07_mech_flareslash_silent.
+Print Assumptions C07_mech_flareslash_repaired.
 Print Assumptions C07_mech_silent_triggers.
 Print Assumptions C07_mech_not_ready_is_noop.
 Print Assumptions C07_mech_nonvacuous.
